@@ -85,6 +85,11 @@ def case_c14(bindir, seed, index, tier, extra):
     return collect(res, "schedsim+crashfs", "cache", "TestVerifCache")
 
 
+def case_c13(bindir, seed, index, tier, extra):
+    res = run_harness(bindir, "cache", "TestVerifCache", "c13", seed, 0, 6 if tier == "quick" else 12, tier, timeout=900)
+    return collect(res, "crashfs+simnet", "cache", "TestVerifCache")
+
+
 def replay_harness(bindir, rp):
     inner = rp.get("replay") or {}
     payload = inner.get("params") if "params" in inner else inner
